@@ -16,6 +16,7 @@ import (
 	"go/types"
 	"os"
 	"path/filepath"
+	"sort"
 	"strings"
 )
 
@@ -170,6 +171,109 @@ func main() {
 		die("writeToWithBuffer: unknown loop body shape %q", strings.Join(shape, "; "))
 	}
 
+	// --- method sets: io.Copy / io.CopyBuffer pick WriteTo / ReadFrom when they exist, so which
+	// methods the three reader types have is part of their behaviour.  All non-test files of the
+	// package are scanned; embedded fields (which promote methods) are listed too. ---
+	types3 := []string{"limitReadCloser", "MultiReaderCloser", "TeeReadCloser"}
+	methods := map[string][]string{}
+	embedded := map[string][]string{}
+	found := map[string]bool{}
+	ctors := map[string][]string{"LimitReadCloser": nil, "NewMultiReaderCloser": nil, "NewTeeReadCloser": nil}
+	files, err := filepath.Glob(filepath.Join(*repo, "streams", "*.go"))
+	if err != nil || len(files) == 0 {
+		die("no go files in %s/streams", *repo)
+	}
+	sort.Strings(files)
+	for _, fn := range files {
+		if strings.HasSuffix(fn, "_test.go") {
+			continue
+		}
+		f, err := parser.ParseFile(fset, fn, nil, 0)
+		if err != nil {
+			die("%v", err)
+		}
+		if f.Name.Name != "streams" {
+			die("%s: unexpected package %s", fn, f.Name.Name)
+		}
+		for _, d := range f.Decls {
+			switch d := d.(type) {
+			case *ast.FuncDecl:
+				if d.Recv == nil {
+					// constructors: which concrete type do callers get?
+					if _, ok := ctors[d.Name.Name]; ok {
+						ast.Inspect(d.Body, func(n ast.Node) bool {
+							if _, isLit := n.(*ast.FuncLit); isLit {
+								die("constructor %s contains a function literal", d.Name.Name)
+							}
+							rs, ok := n.(*ast.ReturnStmt)
+							if !ok {
+								return true
+							}
+							if len(rs.Results) != 1 {
+								die("constructor %s: unexpected return %q", d.Name.Name, render(rs))
+							}
+							ue, ok := rs.Results[0].(*ast.UnaryExpr)
+							if !ok || ue.Op != token.AND {
+								die("constructor %s: unexpected return %q", d.Name.Name, render(rs))
+							}
+							cl, ok := ue.X.(*ast.CompositeLit)
+							if !ok {
+								die("constructor %s: unexpected return %q", d.Name.Name, render(rs))
+							}
+							ctors[d.Name.Name] = append(ctors[d.Name.Name], render(cl.Type))
+							return true
+						})
+					}
+					continue
+				}
+				if len(d.Recv.List) != 1 {
+					continue
+				}
+				recv := strings.TrimPrefix(render(d.Recv.List[0].Type), "*")
+				for _, t := range types3 {
+					if recv == t {
+						methods[t] = append(methods[t], d.Name.Name)
+					}
+				}
+			case *ast.GenDecl:
+				for _, sp := range d.Specs {
+					ts, ok := sp.(*ast.TypeSpec)
+					if !ok {
+						continue
+					}
+					for _, t := range types3 {
+						if ts.Name.Name != t {
+							continue
+						}
+						st, ok := ts.Type.(*ast.StructType)
+						if !ok || ts.Assign != token.NoPos || ts.TypeParams != nil {
+							die("type %s is no longer a plain struct type: %s", t, render(ts))
+						}
+						found[t] = true
+						for _, fld := range st.Fields.List {
+							if len(fld.Names) == 0 {
+								embedded[t] = append(embedded[t], render(fld.Type))
+							}
+						}
+					}
+				}
+			}
+		}
+	}
+	leanList := func(xs []string) string {
+		sort.Strings(xs)
+		q := make([]string, len(xs))
+		for i, x := range xs {
+			q[i] = fmt.Sprintf("%q", x)
+		}
+		return "[" + strings.Join(q, ", ") + "]"
+	}
+	for _, t := range types3 {
+		if !found[t] {
+			die("type %s not found in package streams", t)
+		}
+	}
+
 	var b strings.Builder
 	b.WriteString("/-! GENERATED by harness/cmd/factgen_c16 from /repo/streams — do not edit. -/\n")
 	b.WriteString("namespace Kit.Generated.C16\n\n")
@@ -181,6 +285,21 @@ func main() {
 	fmt.Fprintf(&b, "def writeToClosesCopied : Bool := %s\n\n", writeToCloses)
 	fmt.Fprintf(&b, "/-- MultiReaderCloser.WriteTo: buffer size -/\n")
 	fmt.Fprintf(&b, "def writeToBufSize : Nat := %d\n\n", bufSize)
+	for _, t := range types3 {
+		name := strings.ToLower(t[:1]) + t[1:]
+		fmt.Fprintf(&b, "/-- methods declared on `%s` (all non-test files of package streams), sorted -/\n", t)
+		fmt.Fprintf(&b, "def %sMethods : List String := %s\n\n", name, leanList(methods[t]))
+		fmt.Fprintf(&b, "/-- embedded fields of `%s` (they would promote methods) -/\n", t)
+		fmt.Fprintf(&b, "def %sEmbedded : List String := %s\n\n", name, leanList(embedded[t]))
+	}
+	for _, c := range []string{"LimitReadCloser", "NewMultiReaderCloser", "NewTeeReadCloser"} {
+		if len(ctors[c]) == 0 {
+			die("constructor %s not found or has no return", c)
+		}
+		name := strings.ToLower(c[:1]) + c[1:]
+		fmt.Fprintf(&b, "/-- concrete types `%s` returns a pointer to (one entry per return statement) -/\n", c)
+		fmt.Fprintf(&b, "def %sReturns : List String := %s\n\n", name, leanList(ctors[c]))
+	}
 	b.WriteString("end Kit.Generated.C16\n")
 	if *out == "" {
 		fmt.Print(b.String())
